@@ -11,6 +11,7 @@ MAX_FLOAT8 = 2 ** 30 - 8          # floats: |value| * 8 below 2^30
 ALPHABET = set(
     "abcdefghijklmnopqrstuvwxyzABCDEFGHIJKLMNOPQRSTUVWXYZ0123456789 _-+./\\<>&\"'`:,()[]{}=#!?*|@;~^$\n"
     "\t\r\x0b\x0c\x1c\x1d\x1e\x1f"
+    "\u017f\u00c9\u00e9\u00df\u0663\u2003\u00a0\uff13"      # long s, E-acute, e-acute, sharp s, arabic-indic 3, em space, nbsp, fullwidth 3
 )
 TYPE_INDEX = {int: 1, float: 2, str: 3, list: 4, dict: 5, bool: 6, type(None): 7, pathlib.Path: 8, tuple: 9}
 INDEX_TYPE = {v: k for k, v in TYPE_INDEX.items()}
@@ -140,7 +141,7 @@ def enc_cond(c, depth=0):
         "t": "leaf",
         "datum": cls[0],
         "pre": cls[1],
-        "fn": call.func.__name__,
+        "fn": getattr(call.func, "__verif_fn__", call.func.__name__),     # harness lambdas carry their DSL meaning
         "args": [enc_val(a) for a in call.args],
         "kw": [{"name": k, "nc": [ord(ch) for ch in k], "v": enc_val(v)} for k, v in call.kwargs.items()],
     }
